@@ -41,10 +41,13 @@ def _env():
     class Obj(xlsread.XlsObject):
         _ATTRS = ['id', 'name', 'opt', 'ext', 'marks']
         _NUM_ID_ATTRS = 1
+
+    class Obj2(Obj):
+        _NUM_ID_ATTRS = 2          # composite key (id, name)
     rules = {'id': ('Id', xlsread.cell_str), 'name': ('Name', xlsread.cell_str),
              'opt': ('Opt', xlsread.cell_str, {'default_val': 'D'}), 'ext': None,
              'marks': ('*', xlsread.CellRangeDict(xlsread.cell_str), {'default_val': dict})}
-    _ENV.update(x=xlsread, Obj=Obj, rules=rules)
+    _ENV.update(x=xlsread, Obj=Obj, Obj2=Obj2, rules=rules)
     return _ENV
 
 
@@ -56,7 +59,7 @@ def _org(o):
     return '%s%d' % (o['col'], o['row'])
 
 
-def _compare(objs, exp, where):
+def _compare(objs, exp, where, key_n=1):
     if len(objs) != len(exp):
         return '%s: %d results, the end-of-table rule gives %d data rows' % (where, len(objs), len(exp))
     for k, (o, e) in enumerate(zip(objs, exp)):
@@ -67,6 +70,9 @@ def _compare(objs, exp, where):
             continue
         if o is None:
             return '%s: no object' % w
+        want_key = _conv(e['id']['val']) if key_n == 1 else (_conv(e['id']['val']), _conv(e['name']['val']))
+        if o.logic_id != want_key:
+            return '%s: logic_id %r, key cells hold %r' % (w, o.logic_id, want_key)
         for attr in ('id', 'name'):
             if getattr(o, attr) != _conv(e[attr]['val']):
                 return '%s: %s = %r, source cell holds %r' % (w, attr, getattr(o, attr), _conv(e[attr]['val']))
@@ -100,18 +106,20 @@ def _compare(objs, exp, where):
 def run_case(case):
     e = _env()
     x = e['x']
-    where = 'sheet %s stop_on=%r ladder=%s' % (case['sheet'], case['stopOn'], case['ladder'])
+    key_n = case.get('keyN', 1)
+    cls = e['Obj'] if key_n == 1 else e['Obj2']
+    where = 'sheet %s stop_on=%r ladder=%s key attributes=%d' % (case['sheet'], case['stopOn'], case['ladder'], key_n)
     try:
-        objs = x.read_table(_Sheet(case['sheet']), e['Obj'], e['rules'], stop_on=case['stopOn'],
+        objs = x.read_table(_Sheet(case['sheet']), cls, e['rules'], stop_on=case['stopOn'],
                             ladder_format=case['ladder'])
     except Exception as ex:
         return '%s: read_table raised %s: %s' % (where, type(ex).__name__, str(ex)[:100])
-    r = _compare(objs, case['objs'], where)
+    r = _compare(objs, case['objs'], where, key_n)
     if r:
         return r
     if case['ladder'] and case['stopOn'] == 'blank all':
         try:
-            plain = list(x.iter_table(_Sheet(case['filled']), e['Obj'], e['rules'], stop_on=case['stopOn']))
+            plain = list(x.iter_table(_Sheet(case['filled']), cls, e['rules'], stop_on=case['stopOn']))
         except Exception as ex:
             return '%s: reading the filled-in table raised %s' % (where, type(ex).__name__)
         a = [None if o is None else (o.id, o.name, o.opt, o.ext, o.marks) for o in objs]
@@ -127,7 +135,7 @@ def _cfg(maxrows, emit):
 
 
 def run(ctx):
-    ctx.assumptions += ['rule set: key attribute Id, Name, optional Opt with default, one external attribute, one '
+    ctx.assumptions += ['rule set: key attribute Id (or composite key Id+Name), Name, optional Opt with default, one external attribute, one '
                         'ranged dict attribute; 8 column layouts (order, blank-titled, unknown, separated unknown '
                         'columns); cell values blank / a / b / the number 0; distinct titles',
                         'ladder equivalence is stated for the "blank all" end rule (a blank first cell ends a '
